@@ -53,6 +53,13 @@ def generate(rng, tier, index):
     ops = []
     nh = [2000]
     armed = False
+    cur, many = integ, False
+    SLOW = ("trace", "bs", "mercurius", "ias15")      # adaptive encounter integration of >250 random bodies costs minutes per step: a slow run, not a finding
+    if o.chance(0.1):
+        # numerically equal, bitwise different: the only thing that changes between the first and the second snapshot is the sign of a zero
+        pk, co = o.randint(0, 20), o.choice(["vz", "z", "vy", "x"])
+        first = o.choice([0, 1])
+        ops += [dict(op="signed_zero", pick=pk, coord=co, neg=first), dict(op="snapshot"), dict(op="signed_zero", pick=pk, coord=co, neg=1 - first), dict(op="snapshot")]
     for i in range(nops):
         kind = o.weighted([("steps", 26), ("integrate", 10), ("snapshot", 24), ("add", 8), ("add_many", 1.5), ("remove", 8), ("remove_hash", 3),
                            ("remove_all", 2), ("switch", 6), ("reset_integrator", 4), ("set", 6), ("add_variation", 2), ("megno", 1),
@@ -70,7 +77,11 @@ def generate(rng, tier, index):
                 ops.append(dict(op="add", p=OPS.random_particle(o, r=(1e-4 if merge else 0.0), hash_=nh[0])))
             else:
                 ops.append(dict(op="add_overlap", pick=o.randint(0, 10), hash=nh[0]))
+        elif kind == "add_many" and cur in SLOW:
+            nh[0] += 1
+            ops.append(dict(op="add", p=OPS.random_particle(o, r=(1e-4 if merge else 0.0), hash_=nh[0])))
         elif kind == "add_many":
+            many = True
             k = o.randint(125, 140)
             ps = []
             for j in range(k):
@@ -87,12 +98,14 @@ def generate(rng, tier, index):
             ops.append(dict(op="add", p=dict(m=1.0, x=0.0, y=0.0, z=0.0, vx=0.0, vy=0.0, vz=0.0, r=0.0, hash=nh[0] - 1)))
             ops.append(dict(op="add", p=OPS.random_particle(o, hash_=nh[0])))
         elif kind == "switch":
-            ni = o.choice(INTEGS)
+            ni = o.choice([x for x in INTEGS if not (many and x in SLOW)])
+            cur = ni
             ops.append(dict(op="switch", integrator=ni, opts=simgen.integrator_opts(o, ni)))
         elif kind == "reset_integrator":
             ops.append(dict(op="reset_integrator"))
-            if o.chance(0.7):
-                ni = o.choice(INTEGS)
+            if o.chance(0.7) or many:        # (reset_integrator selects IAS15)
+                ni = o.choice([x for x in INTEGS if not (many and x in SLOW)])
+                cur = ni
                 ops.append(dict(op="switch", integrator=ni, opts=simgen.integrator_opts(o, ni)))
         elif kind == "set":
             path, vals = o.choice(SETS)
@@ -106,6 +119,8 @@ def generate(rng, tier, index):
             ops.append(dict(op="clock_jump", us=o.choice([3600 * 10**6, -3600 * 10**6, 10**12, -10**9])))
         elif kind == "signed_zero":
             ops.append(dict(op="signed_zero", pick=o.randint(0, 20), coord=o.choice(["vz", "z", "vy"]), neg=o.choice([0, 1])))
+            if o.chance(0.5):
+                ops.append(dict(op="snapshot"))
         elif kind == "set_lrescale":
             ops.append(dict(op="set_lrescale", pick=o.randint(0, 5), value=o.choice([-1.0, 0.0, 12.5])))
         elif kind == "move":
@@ -184,7 +199,7 @@ def execute(case, ctx):
                         if n0 <= 128 < sim.N:
                             probe("grew_past_128")
                     elif k == "add_overlap":
-                        if sim.N - sim.N_var >= 1 and not sim.N_var:
+                        if sim.N - sim.N_var >= 1 and not sim.N_var and sim.dt > 0:      # (integrating backwards the planted pair counts as separating: no merger, but a 5e-5 binary that adaptive integrators resolve with ~1e6 steps)
                             sim.ri_whfast.keep_unsynchronized = 0
                             sim.ri_saba.keep_unsynchronized = 0
                             sim.synchronize()       # careful-user protocol (see harness/ops.py): positions are read and a particle is added
